@@ -91,3 +91,42 @@ Theorem c02_perfect_even : forall (A : Type) (m : list (A * A)) l, Permutation (
 Proof. exact @perfect_even. Qed.
 Print Assumptions c02_planar_mwpm. Print Assumptions c02_planar_mwpm_of_error. Print Assumptions c02_toric_mwpm.
 Print Assumptions c02_perfect_even.
+
+(* ---- re-exported by tools/reexport.py: statements copied from `Check`, closed by `exact` ---- *)
+From QV Require Import Decoders.SampleRecovery Decoders.SampleRecoveryColor.
+Theorem c02_planar_sample_syndrome_all : forall rows cols : Z, 2 <= rows -> 2 <= cols -> forall (syn : bsf) (L : list (Z * Z)), length syn = length (Code.stabs (Planar.planar_code rows cols)) -> Permutation L (Planar.syndrome_to_plaquette_indices rows cols syn) -> exists p : Planar.pauli, planar_sample_recovery_ord rows cols L = Some p /\ length (Planar.p_to_bsf p) = (Planar.planar_n rows cols + Planar.planar_n rows cols)%nat /\ syndrome_of (Code.stabs (Planar.planar_code rows cols)) (Planar.p_to_bsf p) = syn.
+Proof. exact planar_sample_syndrome_all. Qed.
+Theorem c02_planar_mps_decode_syndrome_all : forall rows cols : Z, 2 <= rows -> 2 <= cols -> forall (c : coset) (syn : bsf) (L : list (Z * Z)), length syn = length (Code.stabs (Planar.planar_code rows cols)) -> Permutation L (Planar.syndrome_to_plaquette_indices rows cols syn) -> exists p : Planar.pauli, planar_sample_recovery_ord rows cols L = Some p /\ (let r := Planar.p_to_bsf (planar_apply_coset rows cols c p) in r = xorv (Planar.p_to_bsf p) (planar_coset_op rows cols c) /\ length r = (Planar.planar_n rows cols + Planar.planar_n rows cols)%nat /\ syndrome_of (Code.stabs (Planar.planar_code rows cols)) r = syn).
+Proof. exact planar_mps_decode_syndrome_all. Qed.
+Theorem c02_rotplanar_sample_syndrome_all : forall rows cols : Z, 3 <= rows -> 3 <= cols -> forall (syn : bsf) (L : list (Z * Z)), length syn = length (Code.stabs (RotPlanar.rotplanar_code rows cols)) -> Permutation L (RotPlanar.rp_syndrome_to_plaquette_indices rows cols syn) -> let r := RotPlanar.rc_to_bsf (rotplanar_sample_recovery_ord rows cols L) in length r = (RotPlanar.rp_n rows cols + RotPlanar.rp_n rows cols)%nat /\ syndrome_of (Code.stabs (RotPlanar.rotplanar_code rows cols)) r = syn.
+Proof. exact rotplanar_sample_syndrome_all. Qed.
+Theorem c02_rotplanar_mps_decode_syndrome_all : forall rows cols : Z, 3 <= rows -> 3 <= cols -> forall (c : coset) (syn : bsf) (L : list (Z * Z)), length syn = length (Code.stabs (RotPlanar.rotplanar_code rows cols)) -> Permutation L (RotPlanar.rp_syndrome_to_plaquette_indices rows cols syn) -> let p := rotplanar_sample_recovery_ord rows cols L in let r := RotPlanar.rc_to_bsf (rotplanar_apply_coset rows cols c p) in r = xorv (RotPlanar.rc_to_bsf p) (rotplanar_coset_op rows cols c) /\ length r = (RotPlanar.rp_n rows cols + RotPlanar.rp_n rows cols)%nat /\ syndrome_of (Code.stabs (RotPlanar.rotplanar_code rows cols)) r = syn.
+Proof. exact rotplanar_mps_decode_syndrome_all. Qed.
+Theorem c02_color_sample_syndrome_all : forall size : Z, 3 <= size -> size mod 2 = 1 -> forall (syn : bsf) (LX LZ : list (Z * Z)), length syn = length (Code.stabs (Color.color_code size)) -> Permutation LX (fst (Color.c6_syndrome_to_plaquette_indices size syn)) -> Permutation LZ (snd (Color.c6_syndrome_to_plaquette_indices size syn)) -> exists p : RotPlanar.rc_pauli, color_sample_recovery_ord size LX LZ = Some p /\ length (RotPlanar.rc_to_bsf p) = (Color.c6_n size + Color.c6_n size)%nat /\ syndrome_of (Code.stabs (Color.color_code size)) (RotPlanar.rc_to_bsf p) = syn.
+Proof. exact color_sample_syndrome_all. Qed.
+Theorem c02_color_mps_decode_syndrome_all : forall size : Z, 3 <= size -> size mod 2 = 1 -> forall (c : coset) (syn : bsf) (LX LZ : list (Z * Z)), length syn = length (Code.stabs (Color.color_code size)) -> Permutation LX (fst (Color.c6_syndrome_to_plaquette_indices size syn)) -> Permutation LZ (snd (Color.c6_syndrome_to_plaquette_indices size syn)) -> exists p p' : RotPlanar.rc_pauli, color_sample_recovery_ord size LX LZ = Some p /\ color_apply_coset size c p = Some p' /\ RotPlanar.rc_to_bsf p' = xorv (RotPlanar.rc_to_bsf p) (color_coset_op size c) /\ length (RotPlanar.rc_to_bsf p') = (Color.c6_n size + Color.c6_n size)%nat /\ syndrome_of (Code.stabs (Color.color_code size)) (RotPlanar.rc_to_bsf p') = syn.
+Proof. exact color_mps_decode_syndrome_all. Qed.
+Theorem c02_planar_sample_order_irrelevant : forall rows cols : Z, 2 <= rows -> 2 <= cols -> forall (syn : bsf) (L : list (Z * Z)), length syn = length (Code.stabs (Planar.planar_code rows cols)) -> Permutation L (Planar.syndrome_to_plaquette_indices rows cols syn) -> option_map Planar.p_to_bsf (planar_sample_recovery_ord rows cols L) = option_map Planar.p_to_bsf (planar_sample_recovery rows cols syn).
+Proof. exact planar_sample_order_irrelevant. Qed.
+Theorem c02_rotplanar_sample_order_irrelevant : forall rows cols : Z, 3 <= rows -> 3 <= cols -> forall (syn : bsf) (L : list (Z * Z)), length syn = length (Code.stabs (RotPlanar.rotplanar_code rows cols)) -> Permutation L (RotPlanar.rp_syndrome_to_plaquette_indices rows cols syn) -> RotPlanar.rc_to_bsf (rotplanar_sample_recovery_ord rows cols L) = RotPlanar.rc_to_bsf (rotplanar_sample_recovery rows cols syn).
+Proof. exact rotplanar_sample_order_irrelevant. Qed.
+Print Assumptions c02_planar_sample_syndrome_all.
+Print Assumptions c02_planar_mps_decode_syndrome_all.
+Print Assumptions c02_rotplanar_sample_syndrome_all.
+Print Assumptions c02_rotplanar_mps_decode_syndrome_all.
+Print Assumptions c02_color_sample_syndrome_all.
+Print Assumptions c02_color_mps_decode_syndrome_all.
+Print Assumptions c02_planar_sample_order_irrelevant.
+Print Assumptions c02_rotplanar_sample_order_irrelevant.
+
+(* ---- re-exported by tools/reexport.py: statements copied from `Check`, closed by `exact` ---- *)
+From QV Require Import Decoders.ToricMwpmPm.
+Theorem c02_toric_graph_has_perfect_matching : forall (rows cols la : Z) (syn : bsf), Nat.even (length (ToricMwpm.lattice_defects rows cols la syn)) = true -> exists m : list (Z * Z * Z * (Z * Z * Z)), perfect_in_graph rows cols la syn m.
+Proof. exact toric_graph_has_perfect_matching. Qed.
+Theorem c02_toric_graph_perfect_matching_iff : forall (rows cols la : Z) (syn : bsf), (exists m : list (Z * Z * Z * (Z * Z * Z)), perfect_in_graph rows cols la syn m) <-> Nat.even (length (ToricMwpm.lattice_defects rows cols la syn)) = true.
+Proof. exact toric_graph_perfect_matching_iff. Qed.
+Theorem c02_toric_mwpm_graph_total : forall rows cols : Z, (2 <= rows)%Z -> (2 <= cols)%Z -> forall syn : bsf, length syn = length (Toric.tindices rows cols) -> Nat.even (length (ToricMwpm.lattice_defects rows cols 0 syn)) = true -> Nat.even (length (ToricMwpm.lattice_defects rows cols 1 syn)) = true -> (exists m0 m1 : list (Z * Z * Z * (Z * Z * Z)), perfect_in_graph rows cols 0 syn m0 /\ perfect_in_graph rows cols 1 syn m1) /\ (forall m0 m1 : list (Z * Z * Z * (Z * Z * Z)), perfect_in_graph rows cols 0 syn m0 -> perfect_in_graph rows cols 1 syn m1 -> exists r : bsf, ToricMwpm.toric_mwpm_recovery rows cols (m0 ++ m1) = Some r /\ length r = (Toric.toric_n rows cols + Toric.toric_n rows cols)%nat /\ syndrome_of (Code.stabs (Toric.toric_code rows cols)) r = syn).
+Proof. exact toric_mwpm_graph_total. Qed.
+Print Assumptions c02_toric_graph_has_perfect_matching.
+Print Assumptions c02_toric_graph_perfect_matching_iff.
+Print Assumptions c02_toric_mwpm_graph_total.
